@@ -38,8 +38,8 @@ PROPS = {
     },
     'C02': {
         'level': 'exploration',
-        'batches': [{'mode': 'fuzzreg', 'quick': 'all', 'thorough': 'all', 'chunk': 40}, {'mode': 'shape', 'quick': 12000, 'thorough': 500000, 'chunk': 100}, {'mode': 'synth', 'quick': 15000, 'thorough': 600000, 'chunk': 200}],
-        'rule': 'one run = one (possibly rotten) font storage accepted by gr_make_face + 3..40 gr_make_seg calls with the full accessor script; '
+        'batches': [{'mode': 'fuzzreg', 'quick': 'all', 'thorough': 'all', 'chunk': 40}, {'mode': 'shape', 'quick': 12000, 'thorough': 500000, 'chunk': 100}, {'mode': 'synth', 'quick': 15000, 'thorough': 600000, 'chunk': 200}, {'mode': 'just', 'quick': 8000, 'thorough': 300000, 'chunk': 400}],
+        'rule': 'one run = one (possibly rotten or synthesised) font storage accepted by gr_make_face + 3..40 gr_make_seg calls with the full accessor script (just mode: the accessor script again after gr_seg_justify); '
                 'distinct = distinct plan hash; non-trivial = face accepted and at least one segment operation executed',
         'require_probes': ['seg:returned', 'seg:exercised'],
         'assumptions': _ASSUME,
